@@ -31,6 +31,19 @@ pub fn unhex(s: &str) -> Option<Vec<u8>> {
         .collect()
 }
 
+/// Failures met by the generators themselves: a library builder or constructor that panics on
+/// representable content is a finding (C14), but the generator has no `Sink` at hand; it records the
+/// input here and `Sink::finish` turns the records into oracle failures.
+pub static GENERATOR_PANICS: std::sync::Mutex<Vec<(String, String)>> = std::sync::Mutex::new(Vec::new());
+
+pub fn generator_panic(what: &str, input: String) {
+    if let Ok(mut g) = GENERATOR_PANICS.lock() {
+        if g.len() < 20 {
+            g.push((what.to_string(), input));
+        }
+    }
+}
+
 /// Collects what one generator run produced.
 pub struct Sink {
     ops: BufWriter<File>,
@@ -112,6 +125,11 @@ impl Sink {
     }
 
     pub fn finish(mut self, dir: &Path, extra: serde_json::Value) {
+        // panics met while *building* inputs through the library's own builders (see `generator_panic`)
+        let pending: Vec<(String, String)> = GENERATOR_PANICS.lock().map(|mut g| g.drain(..).collect()).unwrap_or_default();
+        for (what, input) in pending {
+            self.oracle(false, &what, &input);
+        }
         self.ops.flush().unwrap();
         self.imp.flush().unwrap();
         self.oracle.flush().unwrap();
